@@ -108,6 +108,11 @@ def run_reader(stream, pf=7, qe=1, parsing=True, validate=1, msgmode=0, handler=
     """Iterate the real UBXReader.  Returns a dict of observations.
     stream: bytes (file-like run) or None when sock_events is given."""
     global _rec
+    if impl.watchdog.fired >= 3:
+        # three cases did not return within their time limit in this run: the verdict is in, the remaining cases are
+        # not executed (each would cost its full time limit again)
+        return {"items": [], "reports": [], "raised": "HANG-SKIPPED", "final": b"", "table": [], "log_records": 0,
+                "requested": None, "exc": RuntimeError("not executed after three hangs")}
     reports = []
     cap = _LogCap()
     lg = logging.getLogger("pyubx2.ubxreader")
